@@ -34,13 +34,15 @@ pub struct W {
 }
 
 impl C03Seq {
-    pub fn new(nsess: usize) -> C03Seq {
+    pub fn new(nsess: usize, quick: bool) -> C03Seq {
         let mut letters = vec![];
         for s in 0..nsess {
             letters.push(L::Watch { s, key: "k" });
             letters.push(L::Watch { s, key: "j" });
             letters.push(L::Unwatch { s, key: "k" });
-            letters.push(L::Unwatch { s, key: "j" });
+            if !quick {
+                letters.push(L::Unwatch { s, key: "j" });
+            }
             // a key nobody ever watches
             letters.push(L::Unwatch { s, key: "x" });
             letters.push(L::UnwatchAll { s });
@@ -183,7 +185,7 @@ pub fn run(run: &mut Run) {
     let mut complete = true;
     let mut info = vec![];
     for (nsess, depth) in passes.iter() {
-        let m = C03Seq::new(*nsess);
+        let m = C03Seq::new(*nsess, quick);
         let sub: Vec<usize> = (0..m.letters.len()).collect();
         let res = explore_all_histories(&m, &[], &sub, *depth, crate::util::workers(), std::time::Duration::from_secs(if quick { 60 } else { 900 }));
         complete &= res.exhausted_bound;
